@@ -120,10 +120,14 @@ fn executor(name: &str, sink: &mut Sink) {
 }
 
 fn check_layout() {
+    // only the position of the field is checked here (how a name reads back is the property's business)
     assert_eq!(std::mem::size_of::<Executor>(), EXECUTOR_ROLE_NAME_OFFSET + 32 + 256, "timelock Executor layout changed");
     let mut e: Box<Executor> = zeroed_box();
-    bytemuck::bytes_of_mut(&mut *e)[EXECUTOR_ROLE_NAME_OFFSET..EXECUTOR_ROLE_NAME_OFFSET + 4].copy_from_slice(b"ABC\0");
-    assert_eq!(e.role_name().ok(), Some("ABC"), "timelock Executor layout changed: role_name is not at offset 48");
+    let b = bytemuck::bytes_of_mut(&mut *e);
+    b[EXECUTOR_ROLE_NAME_OFFSET - 1] = b'Z';
+    b[EXECUTOR_ROLE_NAME_OFFSET..EXECUTOR_ROLE_NAME_OFFSET + 5].copy_from_slice(b"ABCD\0");
+    let at_offset = guarded(|| e.role_name().map(|s| s.starts_with('A')).unwrap_or(false)).unwrap_or(false);
+    assert!(at_offset, "timelock Executor layout changed: role_name is not at offset 48");
 }
 
 fn all(n32: &[String], n64: &[String], sink: &mut Sink) {
@@ -140,8 +144,11 @@ fn all(n32: &[String], n64: &[String], sink: &mut Sink) {
 
 fn main() {
     program_stubs::set_syscall_stubs(Box::new(Stubs));
-    check_layout();
     h_programs::util::quiet_panics();
+    if guarded(check_layout).is_err() {
+        eprintln!("c35p: timelock Executor layout changed (size or role_name offset)");
+        std::process::exit(3);
+    }
     let (mode, args) = Args::from_env();
     let mut sink = Sink::create(&args.str("out", "c35p.ndjson"));
     match mode.as_str() {
